@@ -11,6 +11,9 @@ from ..physconst import EPS_0, Q_E, PI, M_E
 
 logger = logging.getLogger(__name__)
 
+# numpy 2.x renamed trapz to trapezoid and later removed the old name
+_trapz = np.trapezoid if hasattr(np, "trapezoid") else np.trapz
+
 logger.debug("Defining tridiagonal_matrix_algorithm.")
 
 
@@ -252,9 +255,9 @@ def heat_capacity(r, phi, q, kT):
         Constant volume heat capacity
     """
     pot = q*(phi - phi[0])
-    a = np.trapz(pot**2 * np.exp(-pot/kT) * r, r)
-    b = np.trapz(pot * np.exp(-pot/kT) * r, r)
-    c = np.trapz(np.exp(-pot/kT) * r, r)
+    a = _trapz(pot**2 * np.exp(-pot/kT) * r, r)
+    b = _trapz(pot * np.exp(-pot/kT) * r, r)
+    c = _trapz(np.exp(-pot/kT) * r, r)
     return 3/2 + 1/kT**2 * (a/c - b**2/c**2)
 
 
@@ -465,7 +468,7 @@ def boltzmann_radial_potential_linear_density(r, rho_0, nl, kT, q, first_guess=N
     for _ in range(500):
         # ion dist
         shape = np.exp(-q * (phi - phi[0])/kT)
-        i_sr = np.atleast_2d(np.trapz(r*shape, r)).T
+        i_sr = np.atleast_2d(_trapz(r*shape, r)).T
         nax = nl / 2 / PI / i_sr
 
         _bx = - nax * q * shape * Q_E / EPS_0  # dynamic rhs term
@@ -581,7 +584,7 @@ def boltzmann_radial_potential_linear_density_ebeam(
     for _ in range(max_step):
         # ion dist
         shape = np.exp(-q * (phi - phi.min())/kT)
-        i_sr = np.atleast_2d(np.trapz(r*shape, r)).T
+        i_sr = np.atleast_2d(_trapz(r*shape, r)).T
         nax = nl / 2 / PI / i_sr * np.atleast_2d(shape[:, 0]).T
 
         # dynamic rhs term
@@ -698,7 +701,7 @@ def boltzmann_radial_potential_linear_density_ebeam_sor(
 
     shape = np.exp(-q * (phi - phi.min())/kT)
     # shape[:, np.argmax(phi):] = 0
-    i_sr = np.atleast_2d(np.trapz(r*shape, r)).T
+    i_sr = np.atleast_2d(_trapz(r*shape, r)).T
     nax = nl / 2 / PI / i_sr * np.atleast_2d(shape[:, 0]).T
     _bx_a = - nax * q * shape * Q_E / EPS_0  # dynamic rhs term
     _bx_b = - cden/np.sqrt(2 * Q_E * (e_kin+phi)/M_E) / EPS_0
@@ -709,7 +712,7 @@ def boltzmann_radial_potential_linear_density_ebeam_sor(
     for k in range(1, 500):
         # ion dist
         shape = np.exp(-q * (phi - phi.min())/kT)
-        i_sr = np.atleast_2d(np.trapz(r*shape, r)).T
+        i_sr = np.atleast_2d(_trapz(r*shape, r)).T
         nax = nl / 2 / PI / i_sr * np.atleast_2d(shape[:, 0]).T
 
         # dynamic rhs term
